@@ -5,6 +5,7 @@ PROPS["C04"] = {
     "groups": [
         {"pkg": "table", "hdir": "table", "specs": [
             spec("C04/content/1rw", "VerifC04Content", {"nrw": "x", "ws": "1"}),
+            spec("C04/content/0rw", "VerifC04Content", {"nrw": "", "ws": "1"}),
         ] + [spec("C04/rules/rule=%d" % k, "VerifC04Rules", {"rule": str(k)}) for k in range(8)] + [
             spec("C04/isolation", "VerifC04Isolation"),
             spec("C04/isolation/aggregation", "VerifC04IsolationAgg"),
